@@ -52,6 +52,8 @@ type ruCfg struct {
 	FkeyWhite     []string `json:"fkey_white"`
 	FkeyBlack     []string `json:"fkey_black"`
 	KeyFile       bool     `json:"key_file"`
+	Qps           int      `json:"qps"`           // 0: effectively unlimited
+	ScanLullMs    int      `json:"scan_lull_ms"`  // the source takes this long to answer its second SCAN (a lull in which the QoS bucket fills up)
 	BlankAt       []int    `json:"blank_at"` // key file: an empty line (the name of a key that does not exist) before the line with this index
 	TargetVersion string   `json:"target_version"`
 }
@@ -159,7 +161,17 @@ func ruRun(in []byte) (interface{}, error) {
 			}
 			return next, out, true
 		})
+		nscan := 0
 		src.SetHook(func(conn, db int, cmd string, args [][]byte) mredis.HookResult {
+			if cmd == "SCAN" && c.Cfg.ScanLullMs > 0 {
+				mu.Lock()
+				nscan++
+				n := nscan
+				mu.Unlock()
+				if n == 2 {
+					time.Sleep(time.Duration(c.Cfg.ScanLullMs) * time.Millisecond)
+				}
+			}
 			if (cmd == "DUMP" || cmd == "PTTL") && len(args) == 1 {
 				mu.Lock()
 				ph := vanishAt[fmt.Sprintf("%d/%s", db, args[0])]
@@ -186,6 +198,9 @@ func ruRun(in []byte) (interface{}, error) {
 		conf.Options.TargetVersion = c.Cfg.TargetVersion
 		conf.Options.TargetReplace = true
 		conf.Options.Qps = 200000
+		if c.Cfg.Qps > 0 {
+			conf.Options.Qps = c.Cfg.Qps
+		}
 		conf.Options.FilterDBWhitelist, conf.Options.FilterDBBlacklist = c.Cfg.FdbWhite, c.Cfg.FdbBlack
 		conf.Options.FilterKeyWhitelist, conf.Options.FilterKeyBlacklist = c.Cfg.FkeyWhite, c.Cfg.FkeyBlack
 		conf.Options.FilterSlot = nil
@@ -231,7 +246,7 @@ func ruRun(in []byte) (interface{}, error) {
 		hung := false
 		select {
 		case <-doneCh:
-		case <-time.After(25 * time.Second):
+		case <-time.After(time.Duration(25+len(c.Keys)/maxInt(1, c.Cfg.Qps)) * time.Second):
 			hung = true
 		}
 		wall := time.Since(t0)
